@@ -129,7 +129,7 @@ theorem pendOk_counters {d : RState} (h : PendOk d) {ns na : Nat} (h1 : d.nslow 
   cases hk : p.kind with
   | slow a b => rw [hk] at this; exact ⟨this.1, this.2.1, Nat.le_trans this.2.2.1 h1, this.2.2.2⟩
   | run a b => rw [hk] at this; exact ⟨this.1, this.2.1, Nat.le_trans this.2.2.1 h1, this.2.2.2⟩
-  | upl a b c d => rw [hk] at this; exact ⟨this.1, Nat.le_trans this.2 h2⟩
+  | upl a b c => rw [hk] at this; exact ⟨this.1, Nat.le_trans this.2 h2⟩
   | del i f =>
     rw [hk] at this
     obtain ⟨⟨n, hn, hle⟩, hl⟩ := this
